@@ -219,6 +219,42 @@ fn k_header_v5_new_with() {
     }
 }
 
+// ---- the poll decoder reaches the header table through `<Header as PollHeader>::new_with` (src/v3/poll.rs, src/v5/poll.rs):
+//      the forwarder must accept, reject and classify exactly like the table itself (C06: front ends agree on the header)
+//@ id=poll.v3.new_with props=C01,C03,C04,C05,C06,C07,C08,C11,C20 kind=complete tier=quick
+#[kani::proof]
+fn k_poll_v3_new_with() {
+    let hd: u8 = kani::any();
+    let rl: u32 = kani::any();
+    match (<v3::Header as crate::PollHeader>::new_with(hd, rl), spec_header(hd, false)) {
+        (Ok(h), Ok((t, dup, q, ret))) => {
+            assert!(ty3(h.typ) == t, "C06:v3.PollHeader.new_with:type");
+            assert!(h.dup == dup && h.qos as u8 == q && h.retain == ret, "C06:v3.PollHeader.new_with:flags");
+            assert!(h.remaining_len == rl, "C06:v3.PollHeader.new_with:remaining-length-kept");
+        }
+        (Err(e), Err(None)) => assert!(matches!(e, Error::InvalidHeader), "C20:v3.PollHeader.new_with:InvalidHeader"),
+        (Err(e), Err(Some(q))) => assert!(matches!(e, Error::InvalidQos(n) if n == q), "C20:v3.PollHeader.new_with:InvalidQos(3)"),
+        _ => assert!(false, "C06:v3.PollHeader.new_with:accepts-exactly-what-Header.new_with-accepts"),
+    }
+}
+
+//@ id=poll.v5.new_with props=C01,C03,C04,C05,C06,C07,C08,C11,C20 kind=complete tier=quick
+#[kani::proof]
+fn k_poll_v5_new_with() {
+    let hd: u8 = kani::any();
+    let rl: u32 = kani::any();
+    match (<v5::Header as crate::PollHeader>::new_with(hd, rl), spec_header(hd, true)) {
+        (Ok(h), Ok((t, dup, q, ret))) => {
+            assert!(ty5(h.typ) == t, "C06:v5.PollHeader.new_with:type");
+            assert!(h.dup == dup && h.qos as u8 == q && h.retain == ret, "C06:v5.PollHeader.new_with:flags");
+            assert!(h.remaining_len == rl, "C06:v5.PollHeader.new_with:remaining-length-kept");
+        }
+        (Err(e), Err(None)) => assert!(matches!(e, v5::ErrorV5::Common(Error::InvalidHeader)), "C20:v5.PollHeader.new_with:InvalidHeader"),
+        (Err(e), Err(Some(q))) => assert!(matches!(e, v5::ErrorV5::Common(Error::InvalidQos(n)) if n == q), "C20:v5.PollHeader.new_with:InvalidQos(3)"),
+        _ => assert!(false, "C06:v5.PollHeader.new_with:accepts-exactly-what-Header.new_with-accepts"),
+    }
+}
+
 // ---------------------------------------------------------------- v5 subscription options byte (MQTT 5.0 §3.8.3.1)
 //@ id=subopts.to_u8 props=C01,C09,C10,C11 kind=complete tier=quick
 #[kani::proof]
